@@ -80,7 +80,10 @@ Print Assumptions C25_gate_code_fetch.
    one in the source: gen/DispatchTable.v is regenerated from cmd/broker/main.go on every
    run and these two rows are compared with the expected ones by vm_compute *)
 Theorem C25_gate_in_source :
-  row_ok dispatch_table "Produce" = true /\ row_ok dispatch_table "Fetch" = true.
+  gate_row_ok "Produce" [("acquirePartitionLeases", "pre"); ("allowTopic[topic.Topic]:ActionProduce", "skip"); ("etcdAvailable", "skip");
+                         ("leaseErrors", "skip"); ("s3Health.State!=S3StateHealthy", "skip")]%string = true /\
+  gate_row_ok "Fetch" [("resolved[topicName]", "pre"); ("allowTopic[topicName]:ActionFetch", "skip");
+                       ("s3Health.State:S3StateDegraded|S3StateUnavailable", "skip")]%string = true.
 Proof. exact gate_rows_in_source. Qed.
 Print Assumptions C25_gate_in_source.
 
